@@ -71,7 +71,10 @@ Definition mtail_spec (f : N) : guard :=
 Inductive event :=
 | EvAcq (x l : N) (m : mode)
 | EvRel (x l : N) (m : mode)
-| EvAcc (x f : N) (k : kind).
+| EvAcc (x f : N) (k : kind)
+| EvReset.   (* marker, no effect on the machine: the thread selects another
+                object (LBind) or passes a loop boundary; the check-then-act
+                monitor below forgets what it knew *)
 
 Definition env := N -> N.
 Definition upd (r : env) (x v : N) : env := fun y => if N.eqb y x then v else r y.
@@ -81,19 +84,19 @@ Inductive lflow := LFall | LCont | LBrk | LRet.
 Inductive run_stmt : stmt -> env -> list event -> env -> lflow -> Prop :=
 | R_acq o l m r : run_stmt (LAcq o l m) r [EvAcq (r o) l m] r LFall
 | R_rel o l m r : run_stmt (LRel o l m) r [EvRel (r o) l m] r LFall
-| R_bind x v r : run_stmt (LBind x) r [] (upd r x v) LFall
+| R_bind x v r : run_stmt (LBind x) r [EvReset] (upd r x v) LFall
 | R_acc o f k site r : run_stmt (LAcc o f k site) r [EvAcc (r o) f k] r LFall
 | R_if_t t e r tr r' fl : run_block t r tr r' fl -> run_stmt (LIf t e) r tr r' fl
 | R_if_e t e r tr r' fl : run_block e r tr r' fl -> run_stmt (LIf t e) r tr r' fl
-| R_loop_done body site r : run_stmt (LLoop body site) r [] r LFall
+| R_loop_done body site r : run_stmt (LLoop body site) r [EvReset] r LFall
 | R_loop_iter body site r tr1 r1 f1 tr2 r2 fl :
     run_block body r tr1 r1 f1 -> f1 = LFall \/ f1 = LCont ->
     run_stmt (LLoop body site) r1 tr2 r2 fl ->
-    run_stmt (LLoop body site) r (tr1 ++ tr2) r2 fl
+    run_stmt (LLoop body site) r (EvReset :: tr1 ++ tr2) r2 fl
 | R_loop_break body site r tr1 r1 :
-    run_block body r tr1 r1 LBrk -> run_stmt (LLoop body site) r tr1 r1 LFall
+    run_block body r tr1 r1 LBrk -> run_stmt (LLoop body site) r (EvReset :: tr1 ++ [EvReset]) r1 LFall
 | R_loop_ret body site r tr1 r1 :
-    run_block body r tr1 r1 LRet -> run_stmt (LLoop body site) r tr1 r1 LRet
+    run_block body r tr1 r1 LRet -> run_stmt (LLoop body site) r (EvReset :: tr1) r1 LRet
 | R_continue r : run_stmt LContinue r [] r LCont
 | R_break r : run_stmt LBreak r [] r LBrk
 | R_return r : run_stmt LReturn r [] r LRet
@@ -125,6 +128,7 @@ Definition apply1 (H : list hold) (ev : event) : list hold :=
   | EvAcq x l m => (x, l, m) :: H
   | EvRel x l m => remove_one (x, l, m) H
   | EvAcc _ _ _ => H
+  | EvReset => H
   end.
 
 Definition apply (H : list hold) (tr : list event) : list hold := fold_left apply1 tr H.
@@ -269,3 +273,111 @@ Definition gc_shape : block :=
 Definition getdatum_shape : block :=
   lblock_of [LAcq 0 l_mu MW; LAcc 0 f_labelValuesMap KRead 3;
              LAcc 0 f_LabelValues KWrite 4; LAcc 0 f_labelValuesMap KWrite 5; LRel 0 l_mu MW].
+
+(* ====================================================================== *)
+(* Check-then-act atomicity ("no write from stale knowledge").
+   Lock discipline alone does not give "no lost update": a function may read
+   a guarded field in one critical section, release the lock, and later write
+   the field in another critical section relying on what it read (broken
+   double-checked locking).  The monitor below watches one thread's trace:
+   every (object, field) the thread has read or written becomes STALE when the
+   thread releases the lock that guards it, and fresh again when the thread
+   reads it anew; writing a stale (object, field) is the violation.  EvReset
+   (another object is selected, or a loop boundary) makes the monitor forget:
+   staleness is tracked inside loop-free stretches of work on one selection
+   of objects. *)
+Definition opair := (N * N)%type.                 (* object (or symbol), field *)
+Definition opair_eqb (a b : opair) : bool := N.eqb (fst a) (fst b) && N.eqb (snd a) (snd b).
+Record mst := mkmst { mR : list opair; mS : list opair }.   (* touched; stale *)
+Definition mst0 : mst := mkmst [] [].
+
+Definition guarded_by (spec : N -> guard) (l : N) (p : opair) : bool :=
+  match spec (snd p) with GLock l' => N.eqb l' l | _ => false end.
+
+Definition mon1 (spec : N -> guard) (D : mst) (ev : event) : mst * bool :=
+  match ev with
+  | EvAcc x f KRead =>
+      (mkmst ((x, f) :: mR D) (filter (fun p => negb (opair_eqb p (x, f))) (mS D)), true)
+  | EvAcc x f KWrite =>
+      (mkmst ((x, f) :: mR D) (mS D), negb (existsb (opair_eqb (x, f)) (mS D)))
+  | EvAcc _ _ KAtomic => (D, true)
+  | EvRel x l _ =>
+      (mkmst (mR D) (filter (fun p => N.eqb (fst p) x && guarded_by spec l p) (mR D) ++ mS D), true)
+  | EvAcq _ _ _ => (D, true)
+  | EvReset => (mst0, true)
+  end.
+
+Fixpoint atomic_from (spec : N -> guard) (D : mst) (tr : list event) : Prop :=
+  match tr with
+  | [] => True
+  | ev :: r => snd (mon1 spec D ev) = true /\ atomic_from spec (fst (mon1 spec D ev)) r
+  end.
+Definition mon_apply (spec : N -> guard) (D : mst) (tr : list event) : mst :=
+  fold_left (fun d ev => fst (mon1 spec d ev)) tr D.
+
+(* the trace never writes from stale knowledge *)
+Definition atomic_trace (spec : N -> guard) (tr : list event) : Prop := atomic_from spec mst0 tr.
+
+(* static counterpart on symbols: a release stales the touched fields of that
+   lock name on every symbol, a write is flagged when the field is stale on
+   any symbol (aliasing) *)
+Section SCheck.
+Variable spec : N -> guard.
+
+Definition munion (x y : option mst) : option mst :=
+  match x, y with
+  | None, z | z, None => z
+  | Some a, Some b => Some (mkmst (mR a ++ mR b) (mS a ++ mS b))
+  end.
+
+Fixpoint scheck_stmt (s : stmt) (X : mst) {struct s} : list N * option mst :=
+  match s with
+  | LAcq _ _ _ => ([], Some X)
+  | LRel o l _ => ([], Some (mkmst (mR X) (filter (guarded_by spec l) (mR X) ++ mS X)))
+  | LBind _ => ([], Some mst0)
+  | LAcc o f KRead _ =>
+      ([], Some (mkmst ((o, f) :: mR X) (filter (fun p => negb (opair_eqb p (o, f))) (mS X))))
+  | LAcc o f KWrite site =>
+      (if existsb (fun p => N.eqb (snd p) f) (mS X) then [site] else [],
+       Some (mkmst ((o, f) :: mR X) (mS X)))
+  | LAcc _ _ KAtomic _ => ([], Some X)
+  | LIf t e =>
+      let x := scheck_block t X in
+      let y := scheck_block e X in
+      (fst x ++ fst y, munion (snd x) (snd y))
+  | LLoop body _ => (fst (scheck_block body mst0), Some mst0)
+  | LContinue | LBreak | LReturn => ([], None)
+  | LUnknown site => ([site], Some mst0)
+  end
+with scheck_block (b : block) (X : mst) {struct b} : list N * option mst :=
+  match b with
+  | LNil => ([], Some X)
+  | LCons s r =>
+      let x := scheck_stmt s X in
+      match snd x with
+      | None => x
+      | Some X1 => let y := scheck_block r X1 in (fst x ++ fst y, snd y)
+      end
+  end.
+
+(* write sites that may act on stale knowledge *)
+Definition stale_violations (b : block) : list N := fst (scheck_block b mst0).
+Definition atomic_ok (T : list block) : bool :=
+  forallb (fun b => match stale_violations b with [] => true | _ => false end) T.
+End SCheck.
+
+(* the seeded shape: lookup under the read lock, creation under the write lock
+   without looking again *)
+Definition getdatum_split_shape : block :=
+  lblock_of [LAcq 0 l_mu MR; LAcc 0 f_labelValuesMap KRead 3; LRel 0 l_mu MR;
+             LIf LNil
+                 (lblock_of [LAcq 0 l_mu MW; LAcc 0 f_LabelValues KRead 6; LAcc 0 f_LabelValues KWrite 4;
+                             LAcc 0 f_labelValuesMap KWrite 5; LRel 0 l_mu MW])].
+(* correct double-checked locking: looks again under the write lock *)
+Definition getdatum_recheck_shape : block :=
+  lblock_of [LAcq 0 l_mu MR; LAcc 0 f_labelValuesMap KRead 3; LRel 0 l_mu MR;
+             LIf LNil
+                 (lblock_of [LAcq 0 l_mu MW; LAcc 0 f_labelValuesMap KRead 7;
+                             LIf LNil (lblock_of [LAcc 0 f_LabelValues KRead 6; LAcc 0 f_LabelValues KWrite 4;
+                                                  LAcc 0 f_labelValuesMap KWrite 5]);
+                             LRel 0 l_mu MW])].
